@@ -21,6 +21,8 @@ Definition w_kids (n : snode) (ks : list nat) : snode := mkS (s_cr n) (s_leaf n)
 Definition upd (s : store) (id : nat) (f : snode -> snode) : res store :=
   do n <- sget s id; Ok (sset s id (f n)).
 
+Definition eForeign : Z := 997.
+
 Definition is_maximal_l (t l : nat) : res bool :=
   if (t_max t <? l)%nat then Internal eAssert else Ok (l =? t_max t)%nat.
 Definition is_minimal_l (t l : nat) : res bool :=
@@ -277,8 +279,13 @@ Definition s_del_down (t : nat) (rec : store -> nat -> Z -> option Z -> res (sto
         else
           do (_, cid2, _) <- split_at i1 (s_kids n2);
           do c2 <- sget s2 cid2;
-          do mn2 <- is_minimal_l t (length (s_elts c2));
-          if mn2 then Internal eAssert else Ok (s2, cid2)
+          (* ghost check, no Python counterpart: the child found again after rebalancing is
+             written to without maybe_cow_child; were it not owned, Python would silently
+             modify another tree's node - the model stops with eForeign instead *)
+          if negb (s_cr c2 =? s_cr n2)%nat then Internal eForeign
+          else
+            do mn2 <- is_minimal_l t (length (s_elts c2));
+            if mn2 then Internal eAssert else Ok (s2, cid2)
       else Ok (s1, cid));
   rec s2 cid2 key exact.
 
@@ -429,38 +436,57 @@ Definition s_clone (w : sworld) (b : sbtree) (io : bool) : sworld * obs :=
   then (mkSW (sw_store w) (sw_trees w ++ [mkSB (sb_t b) (sb_root b) (length (sw_trees w)) (sb_size b) false io]), N)
   else (w, E eNotImmutable).
 
-Definition sstep (w : sworld) (op : obs) : sworld * obs :=
+(* the store-relevant operations, decoded from the history syntax *)
+Inductive sop :=
+| SNew (t io : Z)
+| SIns (ti k v : Z) (io : option bool) (report : bool)      (* io = None: the tree's own in_order *)
+| SDel (ti k : Z) (exact : option Z) (mode : nat)             (* 0 element / 1 KeyError / 2 None *)
+| SFreeze (ti : Z)
+| SClone (ti : Z) (io : bool).
+
+Definition decode (op : obs) : option sop :=
   match op with
-  | L [I 1; I t; I io] => s_new w t io
-  | L [I 26; I t; I io] => s_new w t io
-  | L [I 2; I ti; I k; I v; I io] =>
+  | L [I 1; I t; I io] => Some (SNew t io)
+  | L [I 26; I t; I io] => Some (SNew t io)
+  | L [I 2; I ti; I k; I v; I io] => Some (SIns ti k v (Some (bool_of io)) true)
+  | L [I 3; I ti; I k] => Some (SDel ti k None 0)
+  | L [I 4; I ti; I k; I v] => Some (SDel ti k (Some v) 0)
+  | L [I 8; I ti] => Some (SFreeze ti)
+  | L [I 9; I ti; I io] => Some (SClone ti (bool_of io))
+  | L [I 27; I ti] => Some (SClone ti false)
+  | L [I 20; I ti; I k; I v] => Some (SIns ti k v None false)
+  | L [I 22; I ti; I k] => Some (SDel ti k None 1)
+  | L [I 23; I ti; I k] => Some (SIns ti k 0 None false)
+  | L [I 24; I ti; I k] => Some (SDel ti k None 2)
+  | _ => None
+  end.
+
+Definition exec (w : sworld) (x : sop) : sworld * obs :=
+  match x with
+  | SNew t io => s_new w t io
+  | SIns ti k v io report =>
       s_with_tree w ti (fun i b =>
-        s_mutate w i (do (s', b', o) <- s_insert_element (sw_store w) b (k, v) (bool_of io); Ok (s', b', obs_of_oelt o)))
-  | L [I 3; I ti; I k] =>
+        s_mutate w i (do (s', b', o) <- s_insert_element (sw_store w) b (k, v)
+                                          (match io with Some x => x | None => sb_inorder b end);
+                      Ok (s', b', if report then obs_of_oelt o else N)))
+  | SDel ti k exact mode =>
       s_with_tree w ti (fun i b =>
-        s_mutate w i (do (s', b', o) <- s_delete (sw_store w) b k None; Ok (s', b', obs_of_dout o)))
-  | L [I 4; I ti; I k; I v] =>
-      s_with_tree w ti (fun i b =>
-        s_mutate w i (do (s', b', o) <- s_delete (sw_store w) b k (Some v); Ok (s', b', obs_of_dout o)))
-  | L [I 8; I ti] =>
+        s_mutate w i (do (s', b', o) <- s_delete (sw_store w) b k exact;
+                      Ok (s', b', match mode with
+                                  | O => obs_of_dout o
+                                  | S O => match o with DDel _ => N | _ => E eKey end
+                                  | _ => N
+                                  end)))
+  | SFreeze ti =>
       s_with_tree w ti (fun i b =>
         (mkSW (sw_store w) (set_nth i (mkSB (sb_t b) (sb_root b) (sb_cr b) (sb_size b) true (sb_inorder b)) (sw_trees w)), N))
-  | L [I 9; I ti; I io] => s_with_tree w ti (fun i b => s_clone w b (bool_of io))
-  | L [I 27; I ti] => s_with_tree w ti (fun i b => s_clone w b false)
-  | L [I 20; I ti; I k; I v] =>
-      s_with_tree w ti (fun i b =>
-        s_mutate w i (do (s', b', o) <- s_insert_element (sw_store w) b (k, v) (sb_inorder b); Ok (s', b', N)))
-  | L [I 22; I ti; I k] =>
-      s_with_tree w ti (fun i b =>
-        s_mutate w i (do (s', b', o) <- s_delete (sw_store w) b k None;
-                      Ok (s', b', match o with DDel _ => N | _ => E eKey end)))
-  | L [I 23; I ti; I k] =>
-      s_with_tree w ti (fun i b =>
-        s_mutate w i (do (s', b', o) <- s_insert_element (sw_store w) b (k, 0) (sb_inorder b); Ok (s', b', N)))
-  | L [I 24; I ti; I k] =>
-      s_with_tree w ti (fun i b =>
-        s_mutate w i (do (s', b', o) <- s_delete (sw_store w) b k None; Ok (s', b', N)))
-  | _ => (w, N)
+  | SClone ti io => s_with_tree w ti (fun i b => s_clone w b io)
+  end.
+
+Definition sstep (w : sworld) (op : obs) : sworld * obs :=
+  match decode op with
+  | Some x => exec w x
+  | None => (w, N)
   end.
 
 Definition is_store_op (op : obs) : bool :=
